@@ -247,8 +247,6 @@ def body_interleaved(case):
     """Harness-owned schedule for two events evaluated on ONE kernel object (what the threaded scheduler does with
     the partitions of a batch): the first evaluation is suspended after its k-th line inside the package, the second
     runs to completion, the first resumes. Both must return what they return on their own. Cloud tops differ per event."""
-    from ..interleave import run_interleaved
-
     det, dtype = case["det"], case.get("dtype", "float32")
     k = kernel(det, dtype)
     evs = []
@@ -262,25 +260,12 @@ def body_interleaved(case):
         with quiet():
             return k.run(b, a, e, float(marker), -float(marker), None if top is None else (lambda la, lo: top))
 
-    with cut("CphotAng.run (on its own)"):
-        alone = [tuple(np.asarray(x).tobytes() for x in one(ev, i)) for i, ev in enumerate(evs)]
+    from ..interleave import check_overlapping
+
     labels = {"kernel_" + dtype}
-    for k_ in case["preempt"]:
-        o = run_interleaved(lambda: one(evs[0], 0), lambda: one(evs[1], 1), k_)
-        for exc, who in ((o.a_exc, "suspended"), (o.b_exc, "overlapping")):
-            if exc is not None:
-                raise Violation(f"the {who} one of two overlapping evaluations on one kernel object raised {type(exc).__name__}: {str(exc)[:200]} (suspended after {k_} lines)")
-        got = [tuple(np.asarray(x).tobytes() for x in o.a), tuple(np.asarray(x).tobytes() for x in o.b)]
-        for i, who in ((0, "suspended"), (1, "overlapping")):
-            if got[i] != alone[i]:
-                b, a, e, top = evs[i]
-                vals = (o.a, o.b)[i]
-                raise Violation(
-                    f"two overlapping evaluations on one kernel object (detector {det} km, {dtype}): the {who} one (beta={math.degrees(b):.3f} deg alt={a} km E={e!r} cloud top {top}) returns ({float(vals[0])!r}, {float(vals[1])!r}), "
-                    f"on its own ({float(np.frombuffer(alone[i][0], dtype=np.asarray(vals[0]).dtype)[0])!r}, {float(np.frombuffer(alone[i][1], dtype=np.asarray(vals[1]).dtype)[0])!r}); first evaluation suspended after {k_} of {o.lines} lines"
-                )
-        if o.reached:
-            labels.add("preempted")
+    desc = " / ".join(f"beta={math.degrees(b):.3f} deg alt={a} km E={e!r} cloud top {top}" for b, a, e, top in evs)
+    if check_overlapping(lambda: one(evs[0], 0), lambda: one(evs[1], 1), case["preempt"], f"two overlapping evaluations on one kernel object (detector {det} km, {dtype}; events {desc})"):
+        labels.add("preempted")
     if evs[0][3] != evs[1][3]:
         labels.add("different_cloud_tops")
     if (evs[0][0], evs[0][1]) != (evs[1][0], evs[1][1]):
